@@ -155,6 +155,28 @@ def run_property(prop, tier, rule_mod, configs, replay=None, selftest=None):
         print("check: /repo does not build with the analysis driver (config %s):\n%s" % (c, e))
         return 2
     ctx = Ctx(prop, tier, progs, infos)
+    # wall-clock watchdog for the analysis itself (the build/export above is not counted): a rule that does not come back on some
+    # unforeseen code shape must fail closed like the step budget of the path engine does, not hang the check
+    import signal
+    budget = int(os.environ.get("MSQLX_ANALYSIS_BUDGET_S", "300") or 300)
+
+    def _on_alarm(signum, frame):
+        import traceback as _tb
+        where = "".join(_tb.format_stack(frame, limit=6))
+        sys.stderr.write("analysis watchdog: %d s exceeded at\n%s\n" % (budget, where))
+        f = frame
+        site = "?"
+        while f is not None:
+            if "/rules/" in f.f_code.co_filename or "/engines/" in f.f_code.co_filename:
+                site = "%s:%s" % (os.path.basename(f.f_code.co_filename), f.f_code.co_name)
+                break
+            f = f.f_back
+        raise TooManyPaths("wall-clock: the analysis did not finish within %d s (in %s)" % (budget, site))
+    try:
+        signal.signal(signal.SIGALRM, _on_alarm)
+        signal.alarm(budget)
+    except (ValueError, AttributeError):
+        pass
     try:
         own = prop + "."
         ctx.rule_filter = lambda r: r.startswith(own) or r in ("anchor-missing", "analysis-budget")
@@ -181,6 +203,10 @@ def run_property(prop, tier, rule_mod, configs, replay=None, selftest=None):
         ctx.rule_filter = None
         ctx.ob("analysis-internal", False, "analysis-internal: %s in %s:%s (%s): the code has a shape this rule cannot read" % (type(e).__name__, os.path.basename(site.filename), site.name, str(e)[:80]),
                construct="internal", callee="%s:%s" % (os.path.basename(site.filename), site.name))
+    try:
+        signal.alarm(0)
+    except (ValueError, AttributeError):
+        pass
     known = load_known()
     new, matched = [], []
     for v in ctx.violations:
